@@ -16,7 +16,7 @@ SPEC = {
         ('K-trans(documented formulas)', 'trans', '^trans:'),
         ('K-obs(documented formulas)', 'obs', '^obs:')],
     'bounded': [
-        ('rescore-best-path', suites.case_C02, 400, 8000, RULE + '; ' + 'non-trivial = the path contains a non-emitting state or the history has more than one operation; histories of <= 4 operations (match, extend, widen)', '')],
+        ('rescore-best-path', suites.case_C02, 1500, 25000, RULE + '; ' + 'non-trivial = the path contains a non-emitting state or the history has more than one operation; histories of <= 4 operations (match, extend, widen)', '')],
 }
 
 
